@@ -1,11 +1,155 @@
 import Driver.Json
+import OomdModel.Fault
 
-/-! Driver glue for engine `tick` (stub: not built yet). -/
+/-! Driver glue for engine `h_tick` (C10). -/
 namespace Driver.Tick
-open Lean
+open Lean OomdModel.Fault OomdModel.Path
+
+def isSpace (c : Char) : Bool := c == ' ' || c == '\t' || c == '\n' || c == '\r' || c == '\x0b' || c == '\x0c'
+
+/-- `std::stoll` / `std::stoi` (base 10): leading whitespace, optional sign, at least one digit;
+trailing characters are ignored; out of range throws -/
+def stoInt (lo hi : Int) (s : Str) : Option Int :=
+  let s := s.dropWhile isSpace
+  let (neg, s) := match s with
+    | '-' :: r => (true, r)
+    | '+' :: r => (false, r)
+    | _ => (false, s)
+  let ds := s.takeWhile Char.isDigit
+  if ds.isEmpty then none else
+  let v : Int := ds.foldl (fun acc c => acc * 10 + (c.toNat - '0'.toNat : Nat)) 0
+  let v := if neg then -v else v
+  if v < lo || v > hi then none else some v
+
+def stoll : Num := stoInt (-9223372036854775808) 9223372036854775807
+def stoi : Num := stoInt (-2147483648) 2147483647
+def stoull (s : Str) : Option Int :=
+  -- strtoull accepts a sign and wraps; only "no digits" and > 2^64-1 throw
+  let t := s.dropWhile isSpace
+  let t := match t with | '-' :: r => r | '+' :: r => r | _ => t
+  let ds := t.takeWhile Char.isDigit
+  if ds.isEmpty then none else
+  let v : Int := ds.foldl (fun acc c => acc * 10 + (c.toNat - '0'.toNat : Nat)) 0
+  if v > 18446744073709551615 then none else some v
+
+/-- plain decimals as the kernel prints PSI averages; value not compared -/
+def stofPlain (s : Str) : Option Int :=
+  let t := s.dropWhile isSpace
+  let t := match t with | '-' :: r => r | '+' :: r => r | _ => t
+  let ip := t.takeWhile Char.isDigit
+  let rest := t.dropWhile Char.isDigit
+  let fp := match rest with | '.' :: r => r.takeWhile Char.isDigit | _ => []
+  if ip.isEmpty && fp.isEmpty then none else some 0
+
+/-- the `total=` field goes through stoull, the averages through stof -/
+def psiNum (s : Str) : Option Int := if s.all Char.isDigit && !s.isEmpty then stoull s else stofPlain s
+
+/-- getline semantics -/
+def toLines (content : String) : List Str :=
+  if content.isEmpty then [] else
+  let parts := content.splitOn "\n"
+  let parts := if content.endsWith "\n" then parts.dropLast else parts
+  parts.map String.toList
+
+def fileSt (sc : Json) : FileSt :=
+  match jstr sc "state" with
+  | "absent" => .absent
+  | "denied" => .denied
+  | "isdir" => .unreadable
+  | "empty" => .lines []
+  | _ => .lines (toLines (jstr sc "content"))
+
+def scanKv (l : Str) : Option (Str × Int) :=
+  -- sscanf("%255s %lu"): first whitespace-delimited token, then an unsigned number
+  let t := l.dropWhile isSpace
+  let k := t.takeWhile (fun c => !isSpace c)
+  let r := (t.dropWhile (fun c => !isSpace c)).dropWhile isSpace
+  let ds := r.takeWhile Char.isDigit
+  if k.isEmpty || ds.isEmpty then none
+  else some (k, ds.foldl (fun acc c => acc * 10 + (c.toNat - '0'.toNat : Nat)) 0)
+
+def cls {α} : Res α → String
+  | .ok _ => "ok" | .unavailable => "unavailable" | .throws => "throws" | .ub => "ub"
+
+def showI {α} (f : α → String) : Res α → Option String
+  | .ok a => some (f a) | _ => none
+
+def joinBar (l : List Str) : String := String.join (l.map fun s => String.ofList s ++ "|")
+
+/-- (class, optional value string to compare) -/
+def modelReader (reader : String) (f : FileSt) : Option (String × Option String) :=
+  let num (r : Res Int) := some (cls r, showI toString r)
+  match reader with
+  | "memcurrent" | "swapcurrent" | "pidscurrent" => num (firstLineNum stoll f)
+  | "memlow" | "memhigh" | "memmax" | "memmin" | "swapmax" => num (minMaxLowHigh stoll f)
+  | "memhightmp" => num (memHighTmp stoll f)
+  | "controllers" => let r := controllers f; some (cls r, showI joinBar r)
+  | "populated" => let r := populated f; some (cls r, showI (fun b => if b then "1" else "0") r)
+  | "oomgroup" => let r := oomGroup f; some (cls r, showI (fun b => if b then "1" else "0") r)
+  | "memstat" | "nrdying" => some (cls (kvFile scanKv f), none)
+  | "vmstat" => some (cls (vmstat stoll f), none)
+  | "mempressure" | "iopressure" => some (cls (pressure psiNum false f), none)
+  | "mempressure_full" => some (cls (pressure psiNum true f), none)
+  | "pgscan" => some (cls (pgScan (kvFile scanKv f)), showI toString (pgScan (kvFile scanKv f)))
+  | _ => none
+
+def valueReaders : List String :=
+  ["memcurrent", "swapcurrent", "pidscurrent", "memlow", "memhigh", "memmax", "memmin", "swapmax", "memhightmp",
+   "controllers", "populated", "mempressure", "mempressure_full", "iopressure"]
+
+def crashed (tr : Json) : Bool := let oc := jstr tr "outcome"; oc != "ok" && oc != ""
+
+def handleReader (sc tr : Json) : Json :=
+  let id := jstr sc "id"
+  let reader := jstr sc "reader"
+  let st := jstr sc "state"
+  let implCls := if crashed tr then "ub" else jstr tr "r"
+  let faulty := st == "absent" || st == "denied" || st == "isdir" || st == "empty"
+  let inDomain := faulty || jbool sc "wf"
+  let v1 := if inDomain && !(implCls == "ok" || implCls == "unavailable") then ["C10.no_crash_in_fault_domain"] else []
+  let v2 := if faulty && valueReaders.contains reader && implCls != "unavailable" then ["C10.faulty_is_unavailable"] else []
+  let v3 := if jbool sc "wf" && valueReaders.contains reader && implCls != "ok" then ["C10.wellformed_is_ok"] else []
+  let viol := v1 ++ v2 ++ v3
+  match modelReader reader (fileSt sc) with
+  | none => verdict id true viol.isEmpty viol s!"{reader}:{st}" [("model", "unmodelled")]
+  | some (c, v) =>
+    let okCls := c == implCls
+    let okVal := match v with | some s => jstr tr "v" == s || implCls != "ok" | none => true
+    verdict id (okCls && okVal) viol.isEmpty viol s!"{reader}:{st}" [("model", Json.str c), ("model_v", match v with | some s => Json.str s | none => Json.null)]
+
+def handleDtype (sc tr : Json) : Json :=
+  let id := jstr sc "id"
+  let ents : List DirEnt := ((jstrs sc "dirs").map fun d => { name := d.toList, isDir := true, isReg := false }) ++
+    ((jstrs sc "files").map fun d => { name := d.toList, isDir := false, isReg := true })
+  let m := readDirUnknownType ents
+  let srt (l : List String) := (l.toArray.qsort (· < ·)).toList
+  let md := srt (m.1.map String.ofList); let mf := srt (m.2.map String.ofList)
+  let ok := md == jstrs tr "dirs" && mf == jstrs tr "files" && !crashed tr
+  -- property: directory entries without type information still yield the child directories
+  let visDirs := srt ((jstrs sc "dirs").filter fun d => !d.startsWith ".")
+  let holds := jstrs tr "dirs" == visDirs && !crashed tr
+  verdict id ok holds (if holds then [] else ["C10.dtype_unknown_children_visible"]) "dtype-unknown"
+
+def handleTick (sc tr : Json) : Json :=
+  let id := jstr sc "id"
+  let r := jstr tr "r"
+  let lo := jint sc "targets_pid_lo"; let hi := jint sc "targets_pid_hi"
+  let kills := (jarr tr "kills").map fun k => ((asArr k).getD 0 Json.null |> asInt, (asArr k).getD 1 Json.null |> asInt)
+  let contained := kills.all fun (p, s) => (s == 9 || s == 0) && lo ≤ p && p ≤ hi
+  -- a configuration rejected at start-up (e.g. a percent threshold with no MemTotal) is not a tick
+  let v1 := if (r == "ok" || r == "config-rejected") && !crashed tr then [] else ["C10.tick_no_crash"]
+  let v2 := if contained then [] else ["C10.containment_under_faults"]
+  let viol := v1 ++ v2
+  verdict id viol.isEmpty viol.isEmpty viol (if r == "throws" then s!"tick-throws:{jstr tr "what"}" else "tick")
 
 def handle (j : Json) : Json :=
-  Json.mkObj [("id", Json.str (jstr (jobj j "s") "id")), ("error", Json.str "engine tick not implemented")]
+  let sc := jobj j "s"
+  let tr := jobj j "t"
+  match jstr sc "kind" with
+  | "reader" => handleReader sc tr
+  | "dtype" => handleDtype sc tr
+  | "tick" => handleTick sc tr
+  | k => Json.mkObj [("id", Json.str (jstr sc "id")), ("error", Json.str s!"unknown kind {k}")]
 
 end Driver.Tick
 
